@@ -198,6 +198,13 @@ type PState struct {
 	ncell    *int
 	loopSnap map[int]*PState // state at the start of the current iteration, per loop ordinal
 	callRes  map[string]Val  // latest result of each callee (by method name) on this path, for guard clauses
+	deferred []deferRec      // pending deferred calls on this path (innermost frame last)
+}
+
+// deferRec is one pending `defer` of a frame.
+type deferRec struct {
+	fr *frame
+	d  *ssa.Defer
 }
 
 func (ex *Exec) NewState() *PState {
@@ -227,6 +234,7 @@ func (st *PState) Clone() *PState {
 	for k, v := range st.heaps {
 		c.heaps[k] = v
 	}
+	c.deferred = append([]deferRec(nil), st.deferred...)
 	if st.callRes != nil {
 		c.callRes = make(map[string]Val, len(st.callRes))
 		for k, v := range st.callRes {
